@@ -141,6 +141,12 @@ def big_start(ctx, jobs):
     e = dict(os.environ)
     for k in ("LD_PRELOAD", "ASAN_OPTIONS", "UBSAN_OPTIONS"):
         e.pop(k, None)
+    import concurrent.futures
+    pool = concurrent.futures.ThreadPoolExecutor(max_workers=6)      # at most 6 driver processes at a time
+
+    def run_one(line):
+        r = subprocess.run([exe], input=line + "\n", stdout=subprocess.PIPE, stderr=subprocess.STDOUT, text=True, env=e, timeout=3000)
+        return r.returncode, r.stdout
     procs = []
     for j in jobs:
         job = j["job"]; n = limbs_to_int(job["size"])
@@ -151,9 +157,8 @@ def big_start(ctx, jobs):
             impls = "api,clmul" + (",generic" if (not ctx.quick or n > (1 << 32)) else "") + ("" if ctx.quick else ",small")
             line = "Z %s %s %d %d %s %s" % (job["type"], limbs_to_bytes(job["init"]).hex(), n, job["off"],
                                             bytes(j["expect"]).hex(), impls)
-        p = subprocess.Popen([exe], stdin=subprocess.PIPE, stdout=subprocess.PIPE, stderr=subprocess.STDOUT, text=True, env=e)
-        p.stdin.write(line + "\n"); p.stdin.close()
-        procs.append((j, line, p))
+        procs.append((j, line, pool.submit(run_one, line)))
+    pool.shutdown(wait=False)
     return procs
 
 
@@ -176,8 +181,7 @@ def big_collect(ctx, procs):
     hists = []
     ncrc = 0
     for j, line, p in procs:
-        out = p.stdout.read()
-        rc = p.wait(timeout=1800)
+        rc, out = p.result()
         job = j["job"]; n = limbs_to_int(job["size"])
         if "NOMAP" in out:
             ctx.notes.append("could not map %d bytes of zero pages: %s skipped" % (n, line[:40]))
